@@ -310,3 +310,112 @@ func TestVerifC04_TiebreakMeaning(t *testing.T) {
 		}
 	}
 }
+
+// The sort key of the tiebreak criteria with a natural definition, computed
+// from the match offsets of ALL terms of the query (union of the matched
+// regions): chunk = length of the white-space delimited chunk around the whole
+// matched region, length = trimmed length, pathname = distance of the match
+// from the last path separator; end = ordering by the relative position of the
+// end of the matched region.
+func TestVerifC04_TiebreakKeys(t *testing.T) {
+	rapid.Check(t, func(t *rapid.T) {
+		algo.Init("default")
+		crit := rapid.SampledFrom([]string{"chunk", "length", "pathname", "end"}).Draw(t, "criterion")
+		cl, _ := parseTiebreak(crit)
+		sortCriteria = cl
+		nterms := rapid.IntRange(1, 3).Draw(t, "nterms")
+		var terms []string
+		for i := 0; i < nterms; i++ {
+			terms = append(terms, string(rapid.SliceOfN(rapid.SampledFrom([]rune("abc")), 1, 2).Draw(t, "term")))
+		}
+		query := strings.Join(terms, " ")
+		forward := crit != "end" && crit != "pathname"
+		pat := BuildPattern(NewChunkCache(), map[string]*Pattern{}, true, algo.FuzzyMatchV2, true, CaseSmart, true, forward, true, false, nil, Delimiter{}, revision{}, []rune(query), nil)
+		type keyed struct {
+			text        string
+			key         uint16
+			minB, maxE  int
+			frac        float64
+			score       uint16
+		}
+		var items []keyed
+		nitems := rapid.IntRange(1, 3).Draw(t, "nitems")
+		for k := 0; k < nitems; k++ {
+			text := string(rapid.SliceOfN(rapid.SampledFrom([]rune("abc  xy/_-")), 1, 18).Draw(t, "text"))
+			item := vItem(text, int32(k))
+			res, offsets, _ := pat.MatchItem(item, true, util.MakeSlab(slab16Size, slab32Size))
+			if res == nil {
+				continue
+			}
+			runes := []rune(text)
+			minB, maxE, valid := 1<<30, 0, false
+			for _, o := range offsets {
+				b, e := int(o[0]), int(o[1])
+				if b < e {
+					valid = true
+					if b < minB {
+						minB = b
+					}
+					if e > maxE {
+						maxE = e
+					}
+				}
+			}
+			if !valid {
+				continue
+			}
+			got := res.points[2] // [score, criterion] -> points[3], points[2]
+			lead := 0
+			for lead < len(runes) && lead != minB && (runes[lead] == ' ' || runes[lead] == '\t') {
+				lead++
+			}
+			trimLen := len([]rune(strings.TrimSpace(text)))
+			var want uint16
+			switch crit {
+			case "chunk":
+				b, e := minB, maxE
+				for b >= 1 && runes[b-1] != ' ' {
+					b--
+				}
+				for e < len(runes) && runes[e] != ' ' {
+					e++
+				}
+				want = uint16(e - b)
+			case "length":
+				want = uint16(trimLen)
+			case "pathname":
+				last := strings.LastIndexByte(text, '/')
+				if last <= minB { // text is ASCII here
+					want = uint16(minB - last)
+				} else {
+					want = 65535
+				}
+			}
+			nested := false
+			if len(offsets) >= 2 {
+				for i := range offsets {
+					for j := range offsets {
+						if i != j && offsets[i][0] <= offsets[j][0] && offsets[j][1] < offsets[i][1] {
+							nested = true
+						}
+					}
+				}
+			}
+			vstat.Case("C04/tiebreak-keys", crit+"|"+query+"|"+text, len(offsets) >= 2, "criterion="+crit, fmt.Sprintf("terms=%d", len(offsets)), fmt.Sprintf("nested=%v", nested))
+			if crit != "end" && got != want {
+				t.Fatalf("--tiebreak=%s query %q line %q (term offsets %v, matched region [%d,%d)): key %d, the documented criterion gives %d", crit, query, text, offsets, minB, maxE, got, want)
+			}
+			items = append(items, keyed{text, got, minB, maxE, float64(maxE-lead) / float64(trimLen+1), res.points[3]})
+		}
+		if crit == "end" {
+			for i := range items {
+				for j := range items {
+					a, b := items[i], items[j]
+					if a.frac > b.frac+0.001 && !(a.key < b.key) {
+						t.Fatalf("--tiebreak=end query %q: line %q (matched region ends at %d, relative %.3f) must rank before %q (ends at %d, relative %.3f) but the keys are %d and %d", query, a.text, a.maxE, a.frac, b.text, b.maxE, b.frac, a.key, b.key)
+					}
+				}
+			}
+		}
+	})
+}
